@@ -527,6 +527,16 @@ pub const ERRCODES: &[(&str, u16, &str)] = &[
     ("M_WEAK_PASSWORD", 400, "{}"),
     ("M_WRONG_ROOM_KEYS_VERSION", 403, r#"{"current_version": "42"}"#),
     ("M_WRONG_ROOM_KEYS_VERSION", 403, "{}"),
+    // optional extra fields spelled as JSON null (what a typed `None` serializes to): the value must
+    // come back as the same kind, not fall into the generic JSON body
+    ("M_WRONG_ROOM_KEYS_VERSION", 403, r#"{"current_version": null}"#),
+    ("M_LIMIT_EXCEEDED", 429, r#"{"retry_after_ms": null}"#),
+    ("M_UNKNOWN_TOKEN", 401, r#"{"soft_logout": null}"#),
+    ("M_BAD_STATUS", 502, r#"{"status": null, "body": null}"#),
+    ("M_BAD_STATUS", 502, r#"{"status": 503}"#),
+    ("M_BAD_STATUS", 502, r#"{"body": "$s"}"#),
+    ("M_RESOURCE_LIMIT_EXCEEDED", 403, r#"{"admin_contact": null}"#),
+    ("M_INCOMPATIBLE_ROOM_VERSION", 400, r#"{"room_version": null}"#),
     ("M_WRONG_ROOM_KEYS_VERSION", 403, r#"{"current_version": "$s"}"#),
     ("ORG.EXAMPLE.CUSTOM", 418, r#"{"x": "$s", "n": 3, "o": {"k": [1, null]}}"#),
 ];
